@@ -233,7 +233,7 @@ def make_chain(rng):
             # steps that carry the names the generated C++ gives its own parameters (`value` of the single-item and scalar
             # overloads, `values` of the batched one), with types that documented edits may widen
             if d is [x for x in base.defs() if isinstance(x, M.Protocol)][0]:
-                d.steps.append(("value", M.Prim(rng.choice(["int32", "uint16", "float32"])), False))
+                d.steps.append(("value", M.Prim(rng.choice(["int32", "uint16", "float32", "uint32", "size"])), False))
                 d.steps.append(("values", M.Prim(rng.choice(["int32", "int16", "float32"])), True))
     # named types whose definition gets wider between versions (`EvoId: float` -> `EvoId: double`), used as a value, as the
     # element of a vector, as stream item and as record field: the name stays, its meaning per version differs
